@@ -1381,6 +1381,16 @@ func (w *envelopingWriter) Write(data []byte) (n int, err error) {
 		} else {
 			// flush after each message and reset for next envelope
 			w.rw.flushMessage()
+			if w.rw.op.serverEnveloper == nil {
+				// The server's protocol has no envelopes: the body was this one message,
+				// whose length was declared via content-length. Nothing more may follow.
+				w.remainingBytes = 0
+				w.err = http.ErrContentLength
+				if len(data) > 0 {
+					return written, w.err
+				}
+				return written, nil
+			}
 			w.writingEnvelope = true
 			w.remainingBytes = envelopeLen
 		}
@@ -1527,7 +1537,7 @@ func (w *envelopingWriter) maybeInit() {
 		return
 	}
 	w.current = w.w
-	w.remainingBytes = envelopeLen
+	w.remainingBytes = w.rw.contentLen
 }
 
 func (w *envelopingWriter) handleTrailer() error {
